@@ -8,20 +8,33 @@
    What is one atomic step (and why):
    * every FrimMap operation (insert / remove / guard()) is one atomic step of
      the copy-on-write map (property C18);
-   * Gate::process() handles ONE command per [ARoot] / [ACloneStep];
-     handling a command never awaits anything but clone command queues
-     (assumed not full) so it is one step;
+   * Gate::process() handles ONE command per [ARoot] / [ACloneStep]. The only
+     thing a handler awaits is notify_clones (555-604): one
+     `sender.send(cmd).await` per attached clone, in clone_senders order, into
+     that clone's BOUNDED command queue (COMMAND_QUEUE_LEN = 16). That loop is
+     modelled send by send ([rnote], the sends still to do; one [ARoot] each):
+     a send to a clone whose queue is full is NOT ENABLED - the root's
+     process() waits there (back-pressure), handles no other command, and goes
+     on once that clone has taken a command off its queue or has been dropped;
+     `Err(Terminated)` is returned ([root_term]) only after the last send of
+     notify_clones(Terminate) ([NFinTerm]);
    * Gate::update_data() is [ABegin] (self.updates.guard(): the snapshot),
      one [ADeliver] per slot of the snapshot (sender.send(..).await /
      direct_update(..).await; a full bounded queue BLOCKS: the step is not
-     enabled) and [AEnd] (metrics.update);
+     enabled; a dropped queue receiver / a dropped direct-update target
+     (Weak::upgrade fails) is skipped without setting sent_at_least_once) and
+     [AEnd] (metrics.update: num_updates += 1, num_dropped_updates += 1 unless
+     sent_at_least_once: GateMetrics::update 1030-1045);
    * the link side: connect() = [ASendSub] (+ the answer inside [ARoot]),
      disconnect() = [ASendUnsub] (the receiver is dropped at once),
-     suspend()/resume = [ASendSusp], query() = [ARecv].
+     suspend()/resume = [ASendSusp], query() = [ARecv]; [ARxDrop x]: the
+     receiving end of slot x goes away while the slot is still registered (the
+     component drops its direct-update target, or closes its queue receiver).
 
-   comms.rs anchors: update_data 661-759, suspension 771-779, subscribe
-   785-829, unsubscribe 831-836, process 377-553, notify_clones 555-597,
-   Clone for Gate 847-920, Link 1298-1522. *)
+   comms.rs anchors (tree with the two `fix:` commits): update_data 668-766,
+   GateMetrics::update 1030-1045, suspension 778-786, subscribe 792-836,
+   unsubscribe 838-843, process 377-556, notify_clones 558-604,
+   COMMAND_QUEUE_LEN 109, Clone for Gate 854-927, Link 1300-1530. *)
 From Coq Require Import List NArith Bool.
 Import ListNotations.
 Local Open Scope N_scope.
@@ -35,6 +48,13 @@ Inductive cmd :=
 | CSub (l : N) | CUnsub (s : N) | CSusp (s : N) (b : bool)
 | CAttach (c : N) | CDetach (c : N) | CTerm.
 Inductive ccmd := FSub (e : entry) | FUnsub (s : N) | FTerm.
+
+(* notify_clones in progress: the sends still to do, in order; [NFinTerm] =
+   `return Err(Terminated)` after notify_clones(Terminate) *)
+Inductive nstep := NSend (c : N) (x : ccmd) | NFinTerm.
+
+(* COMMAND_QUEUE_LEN: capacity of every gate command channel (comms.rs 109) *)
+Definition cmd_queue_len : N := 16.
 
 (* a publisher (0 = the root gate, c >= 1 = clone c): idle with its next
    sequence number, or inside update_data holding the snapshot it took *)
@@ -66,37 +86,46 @@ Record st := MkSt {
   chans : N -> chan;           (* per slot: the bounded mpsc of a queue link *)
   delivered : list (N * N * N * N);   (* (slot, link, publisher, seq) handed over, newest first *)
   received : list (N * N * N);        (* (link, publisher, seq) seen by the component, newest first *)
-  completed : list (N * N * list entry * bool)  (* finished updates: publisher, seq, snapshot, sent_at_least_once *)
+  completed : list (N * N * list entry * bool); (* finished updates: publisher, seq, snapshot, sent_at_least_once *)
+  rnote : list nstep;          (* the root is inside notify_clones: sends still to do *)
+  m_upd : N;                   (* GateMetrics.num_updates (shared by root and clones) *)
+  m_drop : N                   (* GateMetrics.num_dropped_updates *)
 }.
 
 Definition set_upd (v : list entry) (s : st) : st :=
-  MkSt v (sus s) (nslot s) (rootq s) (root_term s) (root_dropped s) (nclone s) (clones s) (pubs s) (links s) (chans s) (delivered s) (received s) (completed s).
+  MkSt v (sus s) (nslot s) (rootq s) (root_term s) (root_dropped s) (nclone s) (clones s) (pubs s) (links s) (chans s) (delivered s) (received s) (completed s) (rnote s) (m_upd s) (m_drop s).
 Definition set_sus (v : list entry) (s : st) : st :=
-  MkSt (upd s) v (nslot s) (rootq s) (root_term s) (root_dropped s) (nclone s) (clones s) (pubs s) (links s) (chans s) (delivered s) (received s) (completed s).
+  MkSt (upd s) v (nslot s) (rootq s) (root_term s) (root_dropped s) (nclone s) (clones s) (pubs s) (links s) (chans s) (delivered s) (received s) (completed s) (rnote s) (m_upd s) (m_drop s).
 Definition set_nslot (v : N) (s : st) : st :=
-  MkSt (upd s) (sus s) v (rootq s) (root_term s) (root_dropped s) (nclone s) (clones s) (pubs s) (links s) (chans s) (delivered s) (received s) (completed s).
+  MkSt (upd s) (sus s) v (rootq s) (root_term s) (root_dropped s) (nclone s) (clones s) (pubs s) (links s) (chans s) (delivered s) (received s) (completed s) (rnote s) (m_upd s) (m_drop s).
 Definition set_rootq (v : list cmd) (s : st) : st :=
-  MkSt (upd s) (sus s) (nslot s) v (root_term s) (root_dropped s) (nclone s) (clones s) (pubs s) (links s) (chans s) (delivered s) (received s) (completed s).
+  MkSt (upd s) (sus s) (nslot s) v (root_term s) (root_dropped s) (nclone s) (clones s) (pubs s) (links s) (chans s) (delivered s) (received s) (completed s) (rnote s) (m_upd s) (m_drop s).
 Definition set_root_term (v : bool) (s : st) : st :=
-  MkSt (upd s) (sus s) (nslot s) (rootq s) v (root_dropped s) (nclone s) (clones s) (pubs s) (links s) (chans s) (delivered s) (received s) (completed s).
+  MkSt (upd s) (sus s) (nslot s) (rootq s) v (root_dropped s) (nclone s) (clones s) (pubs s) (links s) (chans s) (delivered s) (received s) (completed s) (rnote s) (m_upd s) (m_drop s).
 Definition set_root_dropped (v : bool) (s : st) : st :=
-  MkSt (upd s) (sus s) (nslot s) (rootq s) (root_term s) v (nclone s) (clones s) (pubs s) (links s) (chans s) (delivered s) (received s) (completed s).
+  MkSt (upd s) (sus s) (nslot s) (rootq s) (root_term s) v (nclone s) (clones s) (pubs s) (links s) (chans s) (delivered s) (received s) (completed s) (rnote s) (m_upd s) (m_drop s).
 Definition set_nclone (v : N) (s : st) : st :=
-  MkSt (upd s) (sus s) (nslot s) (rootq s) (root_term s) (root_dropped s) v (clones s) (pubs s) (links s) (chans s) (delivered s) (received s) (completed s).
+  MkSt (upd s) (sus s) (nslot s) (rootq s) (root_term s) (root_dropped s) v (clones s) (pubs s) (links s) (chans s) (delivered s) (received s) (completed s) (rnote s) (m_upd s) (m_drop s).
 Definition set_clones (v : N -> clone) (s : st) : st :=
-  MkSt (upd s) (sus s) (nslot s) (rootq s) (root_term s) (root_dropped s) (nclone s) v (pubs s) (links s) (chans s) (delivered s) (received s) (completed s).
+  MkSt (upd s) (sus s) (nslot s) (rootq s) (root_term s) (root_dropped s) (nclone s) v (pubs s) (links s) (chans s) (delivered s) (received s) (completed s) (rnote s) (m_upd s) (m_drop s).
 Definition set_pubs (v : N -> pstate) (s : st) : st :=
-  MkSt (upd s) (sus s) (nslot s) (rootq s) (root_term s) (root_dropped s) (nclone s) (clones s) v (links s) (chans s) (delivered s) (received s) (completed s).
+  MkSt (upd s) (sus s) (nslot s) (rootq s) (root_term s) (root_dropped s) (nclone s) (clones s) v (links s) (chans s) (delivered s) (received s) (completed s) (rnote s) (m_upd s) (m_drop s).
 Definition set_links (v : N -> lstate) (s : st) : st :=
-  MkSt (upd s) (sus s) (nslot s) (rootq s) (root_term s) (root_dropped s) (nclone s) (clones s) (pubs s) v (chans s) (delivered s) (received s) (completed s).
+  MkSt (upd s) (sus s) (nslot s) (rootq s) (root_term s) (root_dropped s) (nclone s) (clones s) (pubs s) v (chans s) (delivered s) (received s) (completed s) (rnote s) (m_upd s) (m_drop s).
 Definition set_chans (v : N -> chan) (s : st) : st :=
-  MkSt (upd s) (sus s) (nslot s) (rootq s) (root_term s) (root_dropped s) (nclone s) (clones s) (pubs s) (links s) v (delivered s) (received s) (completed s).
+  MkSt (upd s) (sus s) (nslot s) (rootq s) (root_term s) (root_dropped s) (nclone s) (clones s) (pubs s) (links s) v (delivered s) (received s) (completed s) (rnote s) (m_upd s) (m_drop s).
 Definition set_delivered (v : list (N * N * N * N)) (s : st) : st :=
-  MkSt (upd s) (sus s) (nslot s) (rootq s) (root_term s) (root_dropped s) (nclone s) (clones s) (pubs s) (links s) (chans s) v (received s) (completed s).
+  MkSt (upd s) (sus s) (nslot s) (rootq s) (root_term s) (root_dropped s) (nclone s) (clones s) (pubs s) (links s) (chans s) v (received s) (completed s) (rnote s) (m_upd s) (m_drop s).
 Definition set_received (v : list (N * N * N)) (s : st) : st :=
-  MkSt (upd s) (sus s) (nslot s) (rootq s) (root_term s) (root_dropped s) (nclone s) (clones s) (pubs s) (links s) (chans s) (delivered s) v (completed s).
+  MkSt (upd s) (sus s) (nslot s) (rootq s) (root_term s) (root_dropped s) (nclone s) (clones s) (pubs s) (links s) (chans s) (delivered s) v (completed s) (rnote s) (m_upd s) (m_drop s).
 Definition set_completed (v : list (N * N * list entry * bool)) (s : st) : st :=
-  MkSt (upd s) (sus s) (nslot s) (rootq s) (root_term s) (root_dropped s) (nclone s) (clones s) (pubs s) (links s) (chans s) (delivered s) (received s) v.
+  MkSt (upd s) (sus s) (nslot s) (rootq s) (root_term s) (root_dropped s) (nclone s) (clones s) (pubs s) (links s) (chans s) (delivered s) (received s) v (rnote s) (m_upd s) (m_drop s).
+Definition set_rnote (v : list nstep) (s : st) : st :=
+  MkSt (upd s) (sus s) (nslot s) (rootq s) (root_term s) (root_dropped s) (nclone s) (clones s) (pubs s) (links s) (chans s) (delivered s) (received s) (completed s) v (m_upd s) (m_drop s).
+Definition set_m_upd (v : N) (s : st) : st :=
+  MkSt (upd s) (sus s) (nslot s) (rootq s) (root_term s) (root_dropped s) (nclone s) (clones s) (pubs s) (links s) (chans s) (delivered s) (received s) (completed s) (rnote s) v (m_drop s).
+Definition set_m_drop (v : N) (s : st) : st :=
+  MkSt (upd s) (sus s) (nslot s) (rootq s) (root_term s) (root_dropped s) (nclone s) (clones s) (pubs s) (links s) (chans s) (delivered s) (received s) (completed s) (rnote s) (m_upd s) v.
 
 Definition fupd {A} (f : N -> A) (k : N) (v : A) : N -> A :=
   fun x => if N.eqb x k then v else f x.
@@ -109,10 +138,30 @@ Definition m_del (s : N) (m : list entry) : list entry := filter (key_neq s) m.
 Definition m_ins (e : entry) (m : list entry) : list entry := m_del (fst e) m ++ [e].
 Definition m_find (s : N) (m : list entry) : option entry := find (fun e => N.eqb (fst e) s) m.
 
-(* notify_clones: every attached clone whose receiver still exists *)
-Definition notify (x : ccmd) (cl : N -> clone) : N -> clone :=
-  fun c => let k := cl c in
-           if c_alive k && c_att k then MkClone (c_alive k) (c_att k) (c_term k) (c_q k ++ [x]) else k.
+(* notify_clones: `clone_senders.guard().iter()` - the attached clones, in
+   the order in which they were attached (= clone id order); whether the
+   receiver still exists is looked at when the send is attempted *)
+Definition is_fterm (x : ccmd) : bool := match x with FTerm => true | _ => false end.
+Definition clone_ids (n : N) : list N := map N.of_nat (seq 1 (N.to_nat n)).
+Definition targets (s : st) : list N := filter (fun c => c_att (clones s c)) (clone_ids (nclone s)).
+Definition note_list (x : ccmd) (s : st) : list nstep :=
+  map (fun c => NSend c x) (targets s) ++ (if is_fterm x then [NFinTerm] else []).
+Definition start_note (x : ccmd) (s : st) : st := set_rnote (note_list x s) s.
+
+Definition push_cmd (x : ccmd) (k : clone) : clone := MkClone (c_alive k) (c_att k) (c_term k) (c_q k ++ [x]).
+
+(* one step of the root inside notify_clones *)
+Definition note_step (s : st) : st :=
+  match rnote s with
+  | NSend c x :: rest =>
+      let k := clones s c in
+      if negb (c_alive k) then set_rnote rest s     (* closed sender (is_closed() / send fails): skipped *)
+      else if N.ltb (N.of_nat (length (c_q k))) cmd_queue_len
+           then set_rnote rest (set_clones (fupd (clones s) c (push_cmd x k)) s)
+           else s                                   (* the clone's queue is full: send().await waits *)
+  | NFinTerm :: rest => set_root_term true (set_rnote rest s)
+  | [] => s
+  end.
 
 Definition set_att (b : bool) (k : clone) : clone := MkClone (c_alive k) b (c_term k) (c_q k).
 Definition set_cterm (k : clone) : clone := MkClone (c_alive k) (c_att k) true (c_q k).
@@ -134,18 +183,19 @@ Inductive action :=
 | ASendSub (l : N) | ASendUnsub (l : N) | ASendSusp (l : N) (b : bool) | ARecv (l : N)
 | ASendTerm | ARoot | ARootDrop
 | AClone | ACloneStep (c : N) | ACloneDrop (c : N)
-| ABegin (p : N) | ADeliver (p : N) | AEnd (p : N).
+| ABegin (p : N) | ADeliver (p : N) | AEnd (p : N)
+| ARxDrop (x : N).
 
 Definition root_handle (s : st) (c : cmd) : st :=
   match c with
   | CSub l =>
       (* subscribe(): insert the slot, THEN answer, then FollowSubscribe to the clones *)
       let e := (nslot s, l) in
-      set_clones (notify (FSub e) (clones s))
+      start_note (FSub e)
         (set_links (fupd (links s) l (LConn (nslot s) false))
            (set_nslot (nslot s + 1) (set_upd (m_ins e (upd s)) s)))
   | CUnsub x =>
-      set_clones (notify (FUnsub x) (clones s))
+      start_note (FUnsub x)
         (set_upd (m_del x (upd s)) (set_sus (m_del x (sus s)) s))
   | CSusp x true =>
       match m_find x (upd s) with
@@ -159,7 +209,7 @@ Definition root_handle (s : st) (c : cmd) : st :=
       end
   | CAttach c => set_clones (fupd (clones s) c (set_att true (clones s c))) s
   | CDetach c => set_clones (fupd (clones s) c (set_att false (clones s c))) s
-  | CTerm => set_root_term true (set_clones (notify FTerm (clones s)) s)
+  | CTerm => start_note FTerm s   (* Err(Terminated) once notify_clones is through: NFinTerm *)
   end.
 
 Definition clone_handle (cf : cfg) (s : st) (c : N) (x : ccmd) : st :=
@@ -206,9 +256,13 @@ Definition step (cf : cfg) (s : st) (a : action) : st :=
   | ASendTerm => set_rootq (rootq s ++ [CTerm]) s
   | ARoot =>
       if root_term s || root_dropped s then s else
-      match rootq s with
-      | [] => s
-      | c :: q => root_handle (set_rootq q s) c
+      match rnote s with
+      | _ :: _ => note_step s
+      | [] =>
+          match rootq s with
+          | [] => s
+          | c :: q => root_handle (set_rootq q s) c
+          end
       end
   | ARootDrop => if pub_idle s 0 then set_root_dropped true s else s
   | AClone =>
@@ -238,34 +292,36 @@ Definition step (cf : cfg) (s : st) (a : action) : st :=
   | ADeliver p =>
       match pubs s p with
       | PSending n snap ((x, l) :: rest) sent =>
-          if is_direct l then
+          let ch := chans s x in
+          if negb (ch_rx ch) then
+            (* queue: send() fails, receiver dropped; direct: Weak::upgrade() fails, target dropped *)
+            set_pubs (fupd (pubs s) p (PSending n snap rest sent)) s
+          else if is_direct l then
             (* direct.upgrade() succeeds while the component lives: direct_update is called *)
             set_received ((l, p, n) :: received s)
               (set_delivered ((x, l, p, n) :: delivered s)
                  (set_pubs (fupd (pubs s) p (PSending n snap rest true)) s))
-          else
-            let ch := chans s x in
-            if negb (ch_rx ch) then
-              (* send() fails: receiver dropped *)
-              set_pubs (fupd (pubs s) p (PSending n snap rest sent)) s
-            else if N.ltb (N.of_nat (length (ch_q ch))) (cf_cap cf) then
-              set_chans (fupd (chans s) x (MkChan (ch_q ch ++ [(p, n)]) true))
-                (set_delivered ((x, l, p, n) :: delivered s)
-                   (set_pubs (fupd (pubs s) p (PSending n snap rest true)) s))
-            else s  (* the bounded queue is full: back-pressure, not loss *)
+          else if N.ltb (N.of_nat (length (ch_q ch))) (cf_cap cf) then
+            set_chans (fupd (chans s) x (MkChan (ch_q ch ++ [(p, n)]) true))
+              (set_delivered ((x, l, p, n) :: delivered s)
+                 (set_pubs (fupd (pubs s) p (PSending n snap rest true)) s))
+          else s  (* the bounded queue is full: back-pressure, not loss *)
       | _ => s
       end
   | AEnd p =>
       match pubs s p with
       | PSending n snap [] sent =>
-          set_completed ((p, n, snap, sent) :: completed s) (set_pubs (fupd (pubs s) p (PIdle (n + 1))) s)
+          (* metrics.update(.., sent_at_least_once) *)
+          set_m_upd (m_upd s + 1) (set_m_drop (if sent then m_drop s else m_drop s + 1)
+            (set_completed ((p, n, snap, sent) :: completed s) (set_pubs (fupd (pubs s) p (PIdle (n + 1))) s)))
       | _ => s
       end
+  | ARxDrop x => set_chans (fupd (chans s) x (MkChan [] false)) s
   end.
 
 Definition init : st :=
   MkSt [] [] 0 [] false false 1 (fun _ => MkClone false false false [])
-       (fun _ => PIdle 0) (fun _ => LIdle) (fun _ => MkChan [] true) [] [] [].
+       (fun _ => PIdle 0) (fun _ => LIdle) (fun _ => MkChan [] true) [] [] [] [] 0 0.
 
 Definition run_from (cf : cfg) (s : st) (tr : list action) : st := fold_left (step cf) tr s.
 Definition run (cf : cfg) (tr : list action) : st := run_from cf init tr.
@@ -303,4 +359,48 @@ Fixpoint clone_drain (cf : cfg) (fuel : nat) (s : st) (c : N) : st :=
   match fuel with
   | O => s
   | S f => clone_drain cf f (step cf s (ACloneStep c)) c
+  end.
+
+(* ---- Terminate under back-pressure. [term_started]: the root has taken Terminate off its
+   queue (it is inside notify_clones(Terminate), possibly waiting for room in a clone's
+   queue, or it has returned Err(Terminated)). *)
+Definition is_fin (x : nstep) : bool := match x with NFinTerm => true | _ => false end.
+Definition term_started (s : st) : bool := root_term s || existsb is_fin (rnote s).
+
+(* the clone the root is waiting for runs its process() for one command *)
+Definition unblock (cf : cfg) (s : st) : st :=
+  match rnote s with
+  | NSend c _ :: _ => step cf s (ACloneStep c)
+  | _ => s
+  end.
+(* ... and the root goes on; n times *)
+Fixpoint push_through (cf : cfg) (n : nat) (s : st) : st :=
+  match n with
+  | O => s
+  | S n' => push_through cf n' (step cf (unblock cf s) ARoot)
+  end.
+(* the root gets through its notify_clones, then clone c drains its queue *)
+Definition term_settle (cf : cfg) (s : st) (c : N) : st :=
+  let s' := push_through cf (length (rnote s)) s in
+  clone_drain cf (S (length (c_q (clones s' c)))) s' c.
+
+(* ---- GateMetrics against the events of the run *)
+(* update n of publisher p was handed to somebody *)
+Definition taken (d : list (N * N * N * N)) (p n : N) : bool :=
+  existsb (fun e => N.eqb (snd (fst e)) p && N.eqb (snd e) n) d.
+Definition cp_dropped (d : list (N * N * N * N)) (e : N * N * list entry * bool) : bool :=
+  negb (taken d (fst (fst (fst e))) (snd (fst (fst e)))).
+(* update_data calls that have returned / those of them that nobody took *)
+Definition n_published (s : st) : N := N.of_nat (length (completed s)).
+Definition n_dropped (s : st) : N := N.of_nat (length (filter (cp_dropped (delivered s)) (completed s))).
+(* the same, read off the schedule: [AEnd p] steps that are enabled *)
+Definition ends_now (s : st) (a : action) : bool :=
+  match a with
+  | AEnd p => match pubs s p with PSending _ _ [] _ => true | _ => false end
+  | _ => false
+  end.
+Fixpoint finished_in (cf : cfg) (s : st) (tr : list action) : nat :=
+  match tr with
+  | [] => O
+  | a :: tr' => ((if ends_now s a then 1 else 0) + finished_in cf (step cf s a) tr')%nat
   end.
